@@ -100,6 +100,14 @@ class TWP(IdEnvWP):
         self.env['ghost.cell'] = V('0', 'Int', 'long')
         self.copy_bufs = None
         self.last_read = None
+        # gather at a ghost position (indexed): G = an arbitrary output row (UNCONSTRAINED), IG = the value the index list holds at G;
+        # ghost.gsrc = the row of this tensor that output row G holds (-1: nothing copied there yet); gdst = the buffer gathered into
+        self.track_gather = False
+        self.G = self.const('ghost_G', 'Int', 'long').t
+        self.IG = self.const('ghost_IG', 'Int', 'long').t
+        self.env['ghost.gsrc'] = V('(- 1)', 'Int', 'long')
+        self.gdst = None
+        self.idx_reads = []       # (position term, value term) of every read of the index list (the list is constant: a function)
 
     def ghost_set(self, key, term):
         self.env[key] = V(term, 'Int', 'long')
@@ -108,12 +116,30 @@ class TWP(IdEnvWP):
         if key in self.env:
             self.env[key] = V(f'(+ {self.env[key].t} 1)', 'Int', 'long')
 
-    def record_copy(self, dbuf, doff, sbuf, soff, ln):
+    def record_copy(self, dbuf, doff, sbuf, soff, ln, drow=None, srow=None, whole=None, rowcond='true'):
         self.ghost_bump('ghost.rows')
         self.ghost_set('ghost.dst', doff)
         self.ghost_set('ghost.src', soff)
         self.ghost_set('ghost.len', ln)
         self.copy_bufs = (dbuf, sbuf)
+        if self.track_gather:
+            # which row of this tensor does output row G hold afterwards?  Known (linear) cases only: one first-axis row copied to
+            # one first-axis row (`drow`, `srow`: recorded by c_view / elem_access from the proved clauses), or a copy of ALL the
+            # coefficients of this tensor, in order, to the start of an output with the same row shape (`whole` = number of rows)
+            old = self.env['ghost.gsrc'].t
+            if sbuf != 'self' or self.gdst not in (None, dbuf):
+                raise Unsupported(f'{self.name}: gather: copy between other buffers than this tensor and the one output')
+            self.gdst = dbuf
+            if drow is not None and srow is not None:
+                upd = f'(ite (= {drow} {self.G}) {srow} {old})'
+                if rowcond != 'true':      # the rows are first-axis rows only under `rowcond`: otherwise nothing is known afterwards
+                    upd = f'(ite {rowcond} {upd} {self.fresh("Int", "unknown_row", "long").t})'
+                self.ghost_set('ghost.gsrc', upd)
+            elif whole is not None:
+                self.ghost_set('ghost.rows', f'(+ {self.env["ghost.rows"].t} (- {whole} 1))')      # `whole` rows written by this one copy
+                self.ghost_set('ghost.gsrc', f'(ite (and (<= 0 {self.G}) (< {self.G} {whole})) {self.G} {old})')
+            else:
+                raise Unsupported(f'{self.name}: gather: a copy that is neither row-to-row nor the whole tensor')
 
     def oblige_indices(self, n):
         """indexed(...) requires every index to lie in [0, dims[0]): the values of the index list are not tracked, the
@@ -502,6 +528,12 @@ def decl_hook(wp, v, init):
         if val.s == 'Tensor':
             wp.env[v['name']] = val
             return True
+    if re.search(r'Eigen::Map<', q) and init:
+        # `auto m = t.matrix();` / `t.vector(i)`: a local Eigen::Map is the view itself (pointer + shape; no coefficients of its own)
+        val = wp.ev(look(init[0]))
+        if val.s == 'View':
+            wp.env[v['name']] = val
+            return True
     return False
 
 
@@ -548,6 +580,8 @@ def c_view(wp, tid, ptr, idx, n, kind):
         wp.assume(c)
     if m == 1:
         view['row'] = idx[0]          # a first-axis row view remembers WHICH row it is (by the proved clause: data() + row * P_1)
+    if m == 0 and T['off'] == '0':
+        view['whole'] = tid           # vector(): ALL the coefficients of the tensor, in order (by the proved clause: data() + 0, P_0 elements)
     if kind == 'tensor':
         t = wp.new_tensor(wp.elems(arr)[m:], T['buf'], view['off'])
         if m == 1:
@@ -555,6 +589,8 @@ def c_view(wp, tid, ptr, idx, n, kind):
         return t
     if kind == 'matrix':
         view['rows'], view['cols'] = wp.dim(tid, R - 2), wp.dim(tid, R - 1)
+        if m == 0 and T.get('rows_of'):
+            view['rows_of'] = T['rows_of']      # (original tensor, condition): matrix row k is first-axis row k of that tensor
     return V(wp.tmp(kind), 'View', view)
 
 
@@ -640,6 +676,10 @@ def c_reshape(wp, tid, ptr, sizes, n):
         pre, M0 = pre_reshape(wp, tid, sizes, j)
         cases.append((j, AND(*pre), M0))
     wp.oblige('callee reshape precondition: sizes >= 0 or exactly one -1 whose inferred value is exact', OR(*[c for _, c, _ in cases]), n)
+    # the part of that precondition whose violation is a crash (integer division by zero, SIGFPE), as an obligation of its own:
+    # `dim = -size() / ::nano::size(dimensions)` divides by the product of the OTHER sizes (reshape(n, -1) with n == 0)
+    wp.oblige('reshape_div0: callee reshape precondition: an inferred (-1) extent divides size() by a NON-ZERO product of the other sizes',
+              AND(*[IMP(f'(= {sizes[j]} (- 1))', NOT(f'(= {M0} 0)')) for j, _, M0 in cases if j is not None]), n)
     if ptr is not None and (ptr.c != T['buf'] or ptr.t != T['off']):
         wp.oblige('callee treshape precondition: ptr == data()', 'false', n)
     off = wp.fresh('Int', 'reshape_off', 'long')
@@ -647,7 +687,12 @@ def c_reshape(wp, tid, ptr, sizes, n):
     for j, c, M0 in cases:
         for _, e in ens_reshape(wp, tid, sizes, j, M0, {'off': off.t, 'dims': dims}):
             wp.assume(IMP(c, e))
-    return wp.new_tensor(dims, T['buf'], plus(T['off'], off.t), 'reshape')
+    t = wp.new_tensor(dims, T['buf'], plus(T['off'], off.t), 'reshape')
+    if N == 2 and T['off'] == '0':
+        # reshape(n, m) with n == dims[0] (a CONDITION, carried along): row k of the rank-2 tensor is first-axis row k of this one
+        # (same start, n rows that partition the same size() coefficients: by the clauses assumed above)
+        wp.tens[t.t]['rows_of'] = (tid, f'(= {sizes[0]} {wp.dim(tid, 0)})')
+    return t
 
 
 def targs_of(wp, me):
@@ -744,9 +789,10 @@ def elem_access(wp, tid, i, n):
     if wp.want_loc:        # the element is the target of an assignment: one coefficient copied from the last element read
         if wp.last_read is None:
             raise Unsupported('element assignment from something else than a tensor element')
-        wp.record_copy(T['buf'], off, wp.last_read[0], wp.last_read[1], '1')
+        row1 = i if (wp.env[T['dims']].c == 1 and T['off'] == '0') else None       # rank 1: row i is element i
+        wp.record_copy(T['buf'], off, wp.last_read[0], wp.last_read[1], '1', drow=row1, srow=wp.last_read[2])
         return 'ghost.cell'
-    wp.last_read = (T['buf'], off)
+    wp.last_read = (T['buf'], off, i if (wp.env[T['dims']].c == 1 and T['off'] == '0') else None)
     return V(off, 'Elem', T['buf'])
 
 
@@ -823,7 +869,11 @@ def h_view_assign(wp, n, args, callee):
     if dst.s != 'View' or src.s != 'View':
         raise Unsupported('assignment between unmodelled Eigen expressions')
     wp.oblige('Eigen Map assignment: source and destination have the same length', f'(= {dst.c["len"]} {src.c["len"]})', n)
-    wp.record_copy(dst.c['buf'], dst.c['off'], src.c['buf'], src.c['off'], dst.c['len'])
+    whole = None
+    if dst.c.get('whole') and src.c.get('whole') == 'self' and wp.elems(wp.tens[dst.c['whole']]['dims'])[1:] == wp.elems('self.m_dims')[1:]:
+        whole = wp.dim('self', 0)       # all rows of this tensor, in order, into an output with the same row shape
+    wp.record_copy(dst.c['buf'], dst.c['off'], src.c['buf'], src.c['off'], dst.c['len'], drow=dst.c.get('row'), srow=src.c.get('row'), whole=whole,
+                   rowcond=AND(dst.c.get('rowcond', 'true'), src.c.get('rowcond', 'true')))
     return dst
 
 
@@ -889,11 +939,22 @@ def m_indexed(wp, n, args, obj):
     itid = wp.tensor_of(args[0])
     want = expected_indexed_dims(wp, tid, itid)
     wp.oblige_indices(n)
+
+    def gathered(buf):
+        # the gather clause proved for the callee (gather_clause): output row G holds row indices(G) of this tensor
+        if wp.track_gather:
+            if tid != 'self' or itid != 'indices' or wp.gdst not in (None, buf):
+                raise Unsupported(f'{wp.name}: gather from another tensor / through another index list / into a second output')
+            g = wp.fresh('Int', 'gathered_row', 'long')
+            wp.assume(gather_term(wp, g.t))
+            wp.ghost_set('ghost.gsrc', g.t)
+            wp.gdst = buf
     if len(args) == 1:
         t = wp.new_tensor(want, None, '0', 'indexed')          # indexed(indices): a tensor of exactly these dims
         wp.tens[t.t]['buf'] = t.t
         wp.bufsize[t.t] = wp.P(t.t)[0]
         wp.ghost_set('ghost.rows', wp.dim(itid, 0))
+        gathered(t.t)
         return t
     sub = wp.tensor_of(args[1])
     node = look(args[1])
@@ -911,7 +972,67 @@ def m_indexed(wp, n, args, obj):
         wp.oblige('callee indexed precondition: subtensor.dims() == (indices.size(), dims[1..])',
                   AND(*[f'(= {a} {b})' for a, b in zip(have, want)]), n)
     wp.ghost_set('ghost.rows', wp.dim(itid, 0))               # every row i < indices.size() written (proved: indexed_map<R>)
+    gathered(wp.tens[sub]['buf'])
     return V('0', 'Int', 'int')
+
+
+def gather_term(wp, gsrc):
+    """the gather postcondition at the ghost position G: 0 <= G < indices.size() => output row G holds row indices(G) of this tensor"""
+    return f'(=> (and (<= 0 {wp.G}) (< {wp.G} {wp.dim("indices", 0)})) (= {gsrc} {wp.IG}))'
+
+
+def gather_clause(wp, out_tid):
+    """[(label, term)]: the clause of the three indexed overloads (post of the callee == what m_indexed assumes at a call site)"""
+    ok = wp.gdst is None or wp.tens[out_tid]['buf'] == wp.gdst
+    return [('gather_rows: row g of the result is row indices(g) of this tensor (ghost position g; index lists with duplicates included)',
+             gather_term(wp, wp.env['ghost.gsrc'].t) if ok else 'false')]
+
+
+def m_row(wp, n, args, obj):
+    """Eigen row(i) of a row-major matrix Map (ASSUMED: coefficients [i * cols, (i + 1) * cols) of the map); 0 <= i < rows() is
+    Eigen's asserted precondition"""
+    v = wp.ev(look(obj))
+    i = wp.ints(args)[0].t
+    if v.s != 'View' or 'rows' not in v.c:
+        raise Unsupported('row(i) on something else than a matrix view')
+    wp.oblige('Eigen row(i) precondition: 0 <= i < rows()', f'(and (<= 0 {i}) (< {i} {v.c["rows"]}))', n)
+    view = {'buf': v.c['buf'], 'off': plus(v.c['off'], times(i, v.c['cols'])), 'len': v.c['cols']}
+    if v.c.get('rows_of'):
+        view['row'], view['rowcond'] = i, v.c['rows_of'][1]
+        if v.c['rows_of'][0] not in ('self', 'subtensor'):
+            view.pop('row')
+    return V(wp.tmp('row'), 'View', view)
+
+
+def m_begin(wp, n, args, obj):
+    """tensor begin() == data(), end() == data() + size()   (inline one-liners of tensor.h, read as their text)"""
+    return m_data(wp, n, args, obj)
+
+
+def m_end(wp, n, args, obj):
+    tid = wp.tensor_of(obj)
+    T = wp.tens[tid]
+    return V(plus(T['off'], wp.P(tid)[0]), 'Ptr', T['buf'])
+
+
+def h_is_sorted(wp, n, args, callee):
+    """std::is_sorted(indices.begin(), indices.end()) over the WHOLE index list: ASSUMED contract of the dependency, instantiated (a
+    sound weakening of [alg.sort]: `true` implies the list is monotone on every pair of positions the function has read so far and
+    on the ghost position; nothing is concluded from `false`)"""
+    a, b = ptr_arg(wp, args[0]), ptr_arg(wp, args[1])
+    if not wp.track_gather or 'indices' not in wp.tens:
+        raise Unsupported('std::is_sorted outside the gather model')
+    I = wp.tens['indices']
+    if (a.c, a.t) != (I['buf'], I['off']) or (b.c, b.t) != (I['buf'], plus(I['off'], wp.P('indices')[0])):
+        raise Unsupported('std::is_sorted over something else than the whole index list')
+    s = wp.fresh('Bool', 'is_sorted', 'bool')
+    pts = list(wp.idx_reads) + [(wp.G, wp.IG)]
+    nI = wp.dim('indices', 0)
+    for p, v in pts:
+        for q, w in pts:
+            if (p, v) != (q, w):
+                wp.assume(f'(=> (and {s.t} (<= 0 {p}) (<= {p} {q}) (< {q} {nI})) (<= {v} {w}))')
+    return s
 
 
 CALLS = [
@@ -925,6 +1046,7 @@ CALLS = [
     (r'^operator=\|.*tensor_t<nano::tensor_marray_storage_t', h_tensor_map_assign),
     (r'^operator=\|std::array', h_array_assign), (r'^operator=\|.*Eigen::', h_view_assign),
     (r'^operator\(\)\|', h_call_operator),
+    (r'^is_sorted\|', h_is_sorted),
 ]
 from wplib import h_std_get, h_array_fill, STD_ARRAY_MEMBERS, STD_NUMERIC_CALLS, iter_hook  # noqa: E402
 CALLS[0] = (r'^get\|', h_std_get)
@@ -941,6 +1063,7 @@ MEMBERS = [
     (r'^treshape\|', m_reshape(True)), (r'^reshape\|', m_reshape(False)),
     (r'^operator\(\)\|', m_call_operator),
     (r'^begin\|.*tensor_range_t', m_range('m_begin')), (r'^end\|.*tensor_range_t', m_range('m_end')),
+    (r'^row\|', m_row), (r'^begin\|.*' + TENSOR_T, m_begin), (r'^end\|.*' + TENSOR_T, m_end),
     (r'^cast\|', m_cast), (r'^resize\|Eigen::', None), (r'^resize\|', m_resize), (r'^indexed\|', m_indexed),
     (r'^_resize\|', None),
 ]
